@@ -708,9 +708,15 @@ class Planner:
             import copy
             first = next((op for op in clients[0] if op['op'] == 'parse'), None)
             if first is not None:
+                twin = copy.deepcopy(first)
+                # (the copies do not construct anything: a construction planned for client 0 - under ITS view of which
+                # names are bound to what - must not be repeated by other clients at other moments)
+                if twin.get('script'):
+                    twin['script'] = {k: v for k, v in twin['script'].items()
+                                      if not (isinstance(v, dict) and 'nest' in v and v['nest'].get('op') == 'compile')}
                 for ci in range(1, n_clients):
                     if wr.random() < 0.7:
-                        clients[ci].insert(0, copy.deepcopy(first))
+                        clients[ci].insert(0, copy.deepcopy(twin))
         if n_clients >= 2 and 'reenter' in kinds and wr.random() < 0.5:
             # mutual nesting: some client's call on module A starts a nested call on module B -- another client then
             # STARTS with a call on B that nests a call on A (the two orders in which two modules can be entered)
